@@ -664,7 +664,13 @@ def _decimate(fr, args, kwargs):
         raise PyRaise("ValueError", "decimation factor must be >= 1")
     shape = list(x.shape)
     shape[ax] = sym.floordiv(sym.add(shape[ax], sym.sub(q, 1)), q) if not (is_pyint(q) and q == 1) else shape[ax]
-    return _routine("decimate", x, [q, v["n"], v["ftype"], ax, v["zero_phase"]], tuple(shape))
+    # scipy: n defaults to 8 for 'iir' and to 20 * q for 'fir' - one canonical order either way
+    n_ = v["n"]
+    if n_ is None and v["ftype"] == "iir":
+        n_ = 8
+    elif n_ is None and v["ftype"] == "fir":
+        n_ = sym.mul(20, q)
+    return _routine("decimate", x, [q, n_, v["ftype"], ax, v["zero_phase"]], tuple(shape))
 
 
 @model("scipy.signal.detrend")
